@@ -218,7 +218,7 @@ struct Lifter<'a> {
     closure_base: Vec<usize>,
     /// `const_values`: module constants of the source file (name -> initialiser)
     consts: HashMap<String, syn::Expr>,
-    /// L21b: module constants (of the source file and of `consts_from` files) whose declared type is an array
+    /// L21b: module constants (of the source file and of `consts_from` files) whose declared type is `[f64; N]`
     const_tables: HashSet<String>,
     const_stack: Vec<String>,
     /// `named_sums` flag of the directive: `.sum()` of a compound array expression gets a named summand function
@@ -4353,7 +4353,7 @@ pub fn lift_fn(ctx: &mut Ctx, blk: &Block) -> Result<(String, Value), String> {
             consts: if blk.flag("const_values") {
                 std::iter::once(&file).chain(consts_from.iter()).flat_map(|f| ctx.files[f].1.items.iter()).filter_map(|it| match it { syn::Item::Const(c) => Some((c.ident.to_string(), (*c.expr).clone())), _ => None }).collect()
             } else { HashMap::new() },
-            const_tables: std::iter::once(&file).chain(consts_from.iter()).flat_map(|f| ctx.files[f].1.items.iter()).filter_map(|it| match it { syn::Item::Const(c) if matches!(&*c.ty, syn::Type::Array(_)) => Some(c.ident.to_string()), _ => None }).collect(),
+            const_tables: std::iter::once(&file).chain(consts_from.iter()).flat_map(|f| ctx.files[f].1.items.iter()).filter_map(|it| match it { syn::Item::Const(c) if matches!(&*c.ty, syn::Type::Array(a) if matches!(&*a.elem, syn::Type::Path(p) if p.path.is_ident("f64"))) => Some(c.ident.to_string()), _ => None }).collect(),
             const_stack: vec![],
             dirty_captured: vec![],
             loopvars: blk.opt("loopvars").map(|t| t.split(';').filter_map(|kv| kv.split_once(':').map(|(a, b)| (a.trim().to_string(), b.trim().to_string()))).collect()).unwrap_or_default(),
